@@ -193,7 +193,7 @@ func run(c *vf.Ctx, si int) {
 	defer w.CloseAll()
 	r := c.Rand("run/" + scen)
 	t := rig.NewTree(w)
-	t.Kinds = []string{"xfer", "xfer", "xfer-new", "xfer-zero", "name", "stake", "deploy", "call-inc", "call-fail", "xfer-poor"}
+	t.Kinds = []string{"xfer", "xfer", "xfer-new", "xfer-zero", "name", "stake", "deploy", "call-inc", "call-fail", "xfer-poor", "feedeleg", "feedeleg-fail", "feedeleg-fail"}
 	t.MaxTx = 5
 	t.MaxAcct = 5 // accounts 5..11 are driven by the scenario itself
 	add := func(p int, mode string) int {
@@ -503,8 +503,8 @@ func run(c *vf.Ctx, si int) {
 			base = mkValidAt(w, nut, a0, a1, stateNonce(a0)+1, 4242)
 			otherTx = mkValidAt(w, nut, a0, a1, stateNonce(a0)+2, 9)
 			f := variants(w, base, a0, a1, otherTx, before.No+1)[vi]
-			if !f.exec {
-				continue
+			if !f.exec && pre != "alone" {
+				continue // variants the production path itself refuses are tried once
 			}
 			step := "evil-block/" + f.name + "/" + pre
 			c.Eval(1)
@@ -522,6 +522,62 @@ func run(c *vf.Ctx, si int) {
 	}
 	if !ledger(c, w, nut, scen, "evil blocks", owners) {
 		return
+	}
+	// long blocks: a block whose FIRST tx carries a bad signature is refused; the next block of the same
+	// length carries its forged tx LAST (signature results of one block must not be counted for the next)
+	{
+		senders := append([]*rig.Acct{}, w.Accts[5:12]...)
+		mk := func(forgeAt int, amt int64) []*types.Tx {
+			var txs []*types.Tx
+			for k := 0; k < 14; k++ {
+				a := senders[k%len(senders)]
+				tx := mkValidAt(w, nut, a, a1, stateNonce(a)+1+uint64(k/len(senders)), amt+int64(k))
+				if k == forgeAt {
+					tx.Body.Sign = rig.FlipBytes(tx.Body.Sign)
+					rig.Rehash(tx)
+				}
+				txs = append(txs, tx)
+			}
+			return txs
+		}
+		many := func(step string, txs []*types.Tx) string {
+			b := evilBuilder(c, w, nut, scen)
+			if b == nil {
+				return "harness"
+			}
+			defer b.Kill()
+			var enc [][]byte
+			for _, tx := range txs {
+				enc = append(enc, rig.EncTx(tx))
+			}
+			rsp, err := b.Produce(&rig.ProduceReq{Txs: enc, Connect: false, Confirms: -1, SignKey: 0})
+			if err != nil || rsp.Panic != "" || rsp.GenErr != "" || len(rsp.Included) != len(txs) {
+				return "not-buildable"
+			}
+			res, err := nut.AddBlock(rsp.Block)
+			if err != nil {
+				c.Violation("node-died", fmt.Sprintf("%s %s: %v", scen, step, err), caseDesc{scen, step, nil})
+				return "died"
+			}
+			if res == "" {
+				return "accepted"
+			}
+			return "refused"
+		}
+		before, _ := nut.Best()
+		r1 := many("long-block/forged-first", mk(0, 100))
+		r2 := many("long-block/forged-last", mk(13, 200))
+		c.Eval(2)
+		c.Count("evil_long_blocks/forged-first/"+r1, 1)
+		c.Count("evil_long_blocks/forged-last-after-it/"+r2, 1)
+		after, _ := nut.Best()
+		if r1 == "accepted" || r2 == "accepted" || !bytes.Equal(before.Hash, after.Hash) {
+			c.Violation("chain-executed-unauthorised-tx/long-block-forged-last-after-refused-block", fmt.Sprintf("%s: 14-tx block with a forged signature on its first tx: %s; following 14-tx block with the forged tx last: %s", scen, r1, r2), caseDesc{scen, "long-blocks", nil})
+			return
+		}
+		if r1 == "refused" && r2 == "refused" {
+			c.Nontrivial(scen + "|long-blocks")
+		}
 	}
 	// the node must still accept honest blocks afterwards
 	okTx := mkValidAt(w, nut, w.Accts[11], a0, stateNonce(w.Accts[11])+1, 1)
